@@ -76,7 +76,7 @@ func (P) Monitor(c *hx.CaseRun) []hx.Failure {
 						fs = append(fs, hx.Failure{Monitor: "keyimage_once", Class: "output-spent-twice", Site: "app/state_processor.go:checkValid",
 							Msg: "confidential output " + k + " was spent by two committed transactions"})
 					}
-				case "xfer", "xfertok", "ain":
+				case "xfer", "xfertok", "ain", "call":
 					if ti.nonce != nextNonce[ti.from] {
 						fs = append(fs, hx.Failure{Monitor: "exact_nonce", Class: "nonce-not-exact", Site: "app/state_transition.go:checkNonce",
 							Msg: fmt.Sprintf("sender %d: transaction with nonce %d executed when the next nonce was %d", ti.from, ti.nonce, nextNonce[ti.from])})
@@ -93,7 +93,7 @@ func (P) Generate(g *hx.Gen) {
 	n := g.Pick(200, 1000)
 	for k := 0; k < n; k++ {
 		trie := g.Rng.Intn(2)
-		ops := []string{hx.CaseOp(), fmt.Sprintf("chain trie=%d accts=3 wallets=2 seed=%d", trie, 1+g.Rng.Intn(1000))}
+		ops := []string{hx.CaseOp(), fmt.Sprintf("chain trie=%d accts=3 wallets=2 seed=%d code=1", trie, 1+g.Rng.Intn(1000))}
 		nonce := []int{0, 0, 0}
 		id := 0
 		var acctTxs, confTxs []int
@@ -111,7 +111,7 @@ func (P) Generate(g *hx.Gen) {
 		ops = append(ops, "block", "bal")
 		rounds := 2 + g.Rng.Intn(g.Pick(3, 5))
 		for r := 0; r < rounds; r++ {
-			switch g.Rng.Intn(8) {
+			switch g.Rng.Intn(11) {
 			case 0: // two spends of one output through the mempool
 				in := g.Rng.Intn(outs)
 				ops = append(ops, fmt.Sprintf("uu w=0 in=%d to=1 amount=%d", in, 1+g.Rng.Intn(1000000)), fmt.Sprintf("ua w=0 in=%d to=%d amount=%d", in, g.Rng.Intn(3), 1+g.Rng.Intn(1000000)))
@@ -120,12 +120,23 @@ func (P) Generate(g *hx.Gen) {
 				attempts++
 				ops = append(ops, "block")
 				outs++ // change of the first spend at most
-			case 1: // two spends of one output forced into ONE block
+			case 1: // two spends of one output forced into ONE block: the same transaction twice, or two different transactions
 				in := g.Rng.Intn(outs)
 				ops = append(ops, fmt.Sprintf("uu w=0 in=%d to=1 amount=%d", in, 1+g.Rng.Intn(1000000)))
 				a := id
 				id++
-				ops = append(ops, fmt.Sprintf("forceblock ids=%d,%d", a, a))
+				if g.Rng.Intn(2) == 0 {
+					ops = append(ops, fmt.Sprintf("forceblock ids=%d,%d", a, a))
+				} else {
+					ops = append(ops, fmt.Sprintf("ua w=0 in=%d to=%d amount=%d", in, g.Rng.Intn(3), 1+g.Rng.Intn(1000000)))
+					b := id
+					id++
+					if g.Rng.Intn(2) == 0 {
+						ops = append(ops, fmt.Sprintf("forceblock ids=%d,%d", a, b))
+					} else {
+						ops = append(ops, fmt.Sprintf("forceblock ids=%d,%d", b, a))
+					}
+				}
 				attempts++
 				ops = append(ops, "block")
 				confTxs = append(confTxs, a)
@@ -168,6 +179,33 @@ func (P) Generate(g *hx.Gen) {
 					ops = append(ops, fmt.Sprintf("replay id=%d", t), "block", fmt.Sprintf("forceblock ids=%d", t))
 					attempts++
 				}
+			case 8: // a spend without any confidential output (whole output to an account), then a second spend of that output
+				in := g.Rng.Intn(outs)
+				ops = append(ops, fmt.Sprintf("ua w=0 in=%d to=%d all=1", in, g.Rng.Intn(3)), "block")
+				a := id
+				id++
+				confTxs = append(confTxs, a)
+				ops = append(ops, fmt.Sprintf("uu w=0 in=%d to=1 amount=%d", in, 1+g.Rng.Intn(1000000)))
+				b := id
+				id++
+				ops = append(ops, "block", fmt.Sprintf("forceblock ids=%d", b), fmt.Sprintf("forceblock ids=%d", a))
+				if g.Rng.Intn(2) == 0 {
+					ops = append(ops, "restart", fmt.Sprintf("replay id=%d", b), "block", fmt.Sprintf("forceblock ids=%d", b))
+				}
+				attempts++
+			case 9, 10: // a contract call (succeeding, or reverting: c=255) committed, then offered again through the mempool and forced
+				from := g.Rng.Intn(3)
+				c := g.Rng.Intn(40)
+				if g.Rng.Intn(2) == 0 {
+					c = 255
+				}
+				ops = append(ops, fmt.Sprintf("call from=%d c=%d nonce=%d", from, c, nonce[from]), "block", "nonces")
+				a := id
+				id++
+				nonce[from]++
+				acctTxs = append(acctTxs, a)
+				ops = append(ops, fmt.Sprintf("replay id=%d", a), "block", fmt.Sprintf("forceblock ids=%d", a))
+				attempts++
 			default:
 				in := g.Rng.Intn(outs)
 				ops = append(ops, fmt.Sprintf("ua w=0 in=%d to=%d amount=%d", in, g.Rng.Intn(3), 1+g.Rng.Intn(1000000)), "block")
